@@ -424,6 +424,7 @@ func genLayout(t *rapid.T) Layout {
 		CRLF:      rapid.IntRange(0, 3).Draw(t, "crlf") == 0,
 		FlatIf:    rapid.IntRange(0, 2).Draw(t, "flatif") == 0,
 		NoFinalNL: rapid.IntRange(0, 4).Draw(t, "nofinalnl") == 0,
+		LongNoise: rapid.SampledFrom([]int{0, 0, 0, 0, 0, 0, 0, 0, 300, 5000, 66000, 140000}).Draw(t, "longnoise"),
 	}
 	lay.Tape = rapid.SliceOfN(rapid.SampledFrom([]uint8{0, 0, 0, 0, 0, 0, 0, 1, 2, 3, 4, 5, 6, 7, 9, 13}), 200, 450).Draw(t, "tape")
 	return lay
